@@ -178,6 +178,11 @@ def einsum(subscripts, *operands):
         else:
             conv_operands.append(op)
 
+    if '->' not in subscripts:
+        # implicit mode of numpy.einsum: the output carries the labels that occur once, in alphabetical order
+        labels = subscripts.replace(',', '').replace(' ', '')
+        subscripts = subscripts + '->' + ''.join(sorted(label for label in set(labels) if labels.count(label) == 1))
+
     tmp_subscripts = ','.join([o + '...' for o in subscripts.split(',')])
     extended_subscripts = '->'.join([o + '...' for o in tmp_subscripts.split('->')[:-1]] + [tmp_subscripts.split('->')[-1]])
     einsum_path = np.einsum_path(extended_subscripts, *conv_operands, optimize='optimal')[0]
